@@ -221,6 +221,11 @@ def merge_laws(tier, seed, ci, nc):
                 yield ('merge', [D(sa, fn=1), D(sa, fn=1)])
                 yield ('merge', [D(bare, fn=2), D(sa, fn=1)])
                 yield ('merge', [D(sa, fn=1), D(bare, fn=2)])
+                # ... and with a return annotation (under PEP 563 its upgraded form is not the pre-evaluated raw string)
+                dr = D(sa, fn=1, ret=91 if post else 90, uret=('q', 91, 1) if post else ('p', 90))
+                yield ('merge', [dr])
+                yield ('merge', [dr, dr])
+                yield ('merge', [dr, D(bare, fn=2)])
     return _slice(gen(), ci, nc)
 
 
@@ -757,7 +762,7 @@ STREAMS['sched'] = sched
 def faults(tier, seed, ci, nc):
     from . import scenarios
     names = sorted(scenarios.make())
-    excs = ('runtime', 'value') if tier == 'quick' else ('runtime', 'value', 'type', 'attr', 'kbd')
+    excs = ('runtime', 'value', 'kbd') if tier == 'quick' else ('runtime', 'value', 'type', 'attr', 'kbd')
 
     def gen():
         for n in names:
@@ -1277,3 +1282,24 @@ def probes(tier, seed, ci, nc, items=()):
 
 
 STREAMS['probes'] = probes
+
+
+def chain(tier, seed, ci, nc):
+    """the fallback chain of forged_signature: every combination of what the declared forger, the autoforwards hint,
+    autoforwards and plain retrieval do (absent / no opinion / a signature / UnknownForwards / another exception), with and
+    without automatic discovery; an exception in the hint slot is raised by the hint callable or by autoforwards_ast"""
+    slots = ['N', 'U', 'S1', 'EvalueError', 'EtypeError', 'EunknownForwards', 'EkeyError']
+
+    def gen():
+        for auto in (0, 1):
+            for f in ['-'] + slots:
+                for h in ['-'] + slots:
+                    for a in slots[1:]:
+                        for p in ('S3', 'EvalueError', 'EunknownForwards', 'EtypeError'):
+                            yield ('chain', auto, f, h, a, p, 'callable')
+                            if h[0] == 'E':
+                                yield ('chain', auto, f, h, a, p, 'ast')
+    return _slice(gen(), ci, nc)
+
+
+STREAMS['chain'] = chain
